@@ -2,7 +2,7 @@
 //
 //	compress replay <layout> <vectors.ndjson> <events.ndjson>   Gen_Compress vectors -> Pack with Compress true and false -> events;
 //	                                                            hand-compressed octets of the vector -> Unpack must accept and read the vector's message
-//	compress record <layout> <events.ndjson> <n> <big>          random messages from the record zoo (big: 100-400 records) -> events
+//	compress record <layout> <events.ndjson> <n> <big>          random messages from the record zoo (big: 150-600 records) -> events
 //	compress reexec <layout> <in.ndjson> <out.ndjson>           the messages of recorded events through the real code again
 //
 // An event is {bytesC, bytesU, sc, su [, msg]}: the octets packed with and without compression and their
@@ -256,7 +256,7 @@ func randomMsg(r *rand.Rand, pools [][]dns.RR, big bool) *dns.Msg {
 	}
 	total := 1 + r.Intn(12)
 	if big {
-		total = 100 + r.Intn(301)
+		total = 150 + r.Intn(451)
 	}
 	for i := 0; i < total; i++ {
 		pool := pools[r.Intn(len(pools))]
